@@ -69,8 +69,14 @@ def parse(text, max_depth=100000):
                     h = text[i + 1:i + 5]
                     if len(h) != 4 or not re.fullmatch('[0-9a-fA-F]{4}', h):
                         raise _Bad('bad \\u escape')
-                    out.append(chr(int(h, 16)))
+                    cp = int(h, 16)
                     i += 5
+                    if 0xD800 <= cp < 0xDC00 and text[i:i + 2] == '\\u':
+                        h2 = text[i + 2:i + 6]
+                        if len(h2) == 4 and re.fullmatch('[0-9a-fA-F]{4}', h2) and 0xDC00 <= int(h2, 16) < 0xE000:
+                            cp = 0x10000 + ((cp - 0xD800) << 10) + (int(h2, 16) - 0xDC00)
+                            i += 6
+                    out.append(chr(cp))
                 else:
                     raise _Bad('bad escape')
             elif ord(c) < 0x20:
